@@ -260,6 +260,9 @@ def run_case(case):
                 cls = rng.choice(faultlab.CLASSES)
                 if cls == 'StopIteration':
                     cls = 'PrivateError'       # a generator cannot raise StopIteration (PEP 479)
+                if at in (101, 149) and via == 'results':
+                    # after the inference sample the rows pass through the reader library's own error handling
+                    cls = ['UnicodeDecodeError', 'UnicodeEncodeError'][case['pos'] % 2]
                 tag = 'src%s_%s_%s' % (case['pos'], at, via)
                 injected = faultlab.make_exception(cls, tag)
                 second = rng.random() < 0.5
